@@ -24,6 +24,8 @@ def run(ctx):
     progs = F.c13_chains(ctx.tier, rnd, excs=("ZeroDivisionError", "RecursionError") if quick else ("ZeroDivisionError", "RecursionError", "KeyError", "KeyboardInterrupt"))
     agg = run_family("C13chain", progs, NAMES, dev=dev, invariants=INVS, perms=(0, 1) if quick else (0, 1, 2), timeout=1800)
     ctx.add_family(agg)
+    agg = run_family("C13mode", F.c13_modes(ctx.tier, rnd), NAMES, dev=dev, invariants=INVS, perms=(0, 1), timeout=900)
+    ctx.add_family(agg)
     agg = run_family("C13metal", F.c13_metal(ctx.tier, rnd), NAMES + ["macroname"], dev=dev, invariants=INVS, perms=(0, 1), timeout=1800)
     ctx.add_family(agg)
     n3 = 100 if quick else 2000
